@@ -19,14 +19,16 @@ whole `Result` from the OBSERVED draws with a spec written from the property sta
               resample restricted to the test conditions (upper), averaged over folds.  Pooling: mean of the RDMs scaled to
               unit mean square (cosine), z-scored (corr), rank-transformed (rho-a).
 
-Clause of the property -> oracle (one `Bounded` per routine family and clause; all of a family share one observed run)
+Clause of the property -> oracle (one `Bounded` per routine family and clause; all of a family share one observed run;
+ families: eval_fixed, eval_bootstrap_all3 = eval_bootstrap + eval_bootstrap_pattern + eval_bootstrap_rdm, crossval,
+ bootstrap_crossval, eval_dual_bootstrap, eval_dual_bootstrap_random)
 * "each stored evaluation equals the average similarity between the model's prediction -- at the supplied parameters, or at
   parameters fitted on that fold's training set only -- restricted to exactly the conditions of that resample or test fold,
   and the data RDMs of that resample or test fold; resamples too small to evaluate are marked NaN"
     -> `C04/<family>/evaluations`: every entry of `Result.evaluations` (shape included) against the recomputation; NaN exactly
        where the observed draw has fewer than 3 distinct condition units (bootstrap), fewer than k_rdm distinct RDM units /
        3*k_pattern distinct condition units (bootstrap-crossvalidation, dual bootstrap), not more than n_rdm / fewer than
-       3+n_pattern (random folds), or a fold side without RDMs / with fewer than 3 conditions (crossval).  Fitted parameters:
+       3+n_pattern (random folds), or a fold side without RDMs / with fewer than 3 DISTINCT conditions (every fold).  Fitted parameters:
        spy fitters return parameters that are an injective-in-practice function of everything they were shown (sorted data
        values, pattern_idx labels, method, pattern_descriptor, own identity) and the spec recomputes them from the spec
        TRAINING side only; for `fit_select` the spec recomputes the argmax of the spec score on the training side under the
@@ -65,8 +67,20 @@ NOT covered by this tier
   model_var / diff_var / noise_ceil_var; `use_correction=True` with n_cv=1 (the routines raise by design).
 * where the pooled upper-ceiling RDM of a cross-validated resample is normalised (whole resample, as documented in
   `cv_noise_ceiling`) is taken over, the clause checked being WHICH resample and folds the ceiling belongs to.
-* direct `crossval` folds whose side has >= 3 conditions with multiplicity but fewer than 3 distinct ones are generated only
-  under the input_class `fold-lt3-distinct` (see C04_findings.md).
+* `crossval` with ceil_set given on folds that are too small or that carry resampling multiplicity: `cv_noise_ceiling` has no
+  notion of unusable folds and wants label lists without multiplicity, `crossval` wants them with multiplicity; inside the
+  library that combination only arises through `_internal_cv` / `eval_dual_bootstrap_random`, where it is covered.
+* cv_method / n_rdm / n_pattern bookkeeping of `Result` (not part of the statement; engine A checks the plumbing).
+
+Known findings of the unchanged tree (details, reproductions and suggested repairs in C04_findings.md), by input_class:
+* `eval_dual_bootstrap_random`, input_class `n_cv=2` (clause noise-ceiling): the (lower, upper) pair of a resample is broadcast
+  along the repetition axis, so noise_ceiling[0] and noise_ceiling[1] are identical and both hold (lower, upper).
+* `eval_dual_bootstrap_random`, input_class `n_cv!=2` and `n_cv=2,uncorrected` (reported under clause evaluations as the routine
+  returns no Result): ValueError from the same broadcast for every n_cv != 2, and from np.concatenate of a 1-D with a 2-D array
+  whenever use_correction=False.
+* `crossval`, input_class `fold-lt3-distinct` (clauses evaluations, noise-ceiling, fitter-view): a test fold with >= 3
+  conditions counting multiplicity but only 2 distinct ones is evaluated (cosine 1.0, rho-a 0.0, corr raises) instead of NaN;
+  the same through `eval_dual_bootstrap_random(n_pattern=2)`, input_class `test-sets-lt3-conditions`.
 """
 import contextlib
 import inspect
@@ -174,7 +188,7 @@ def _same_num(a, b, tol=TOL, rel=False):
     d = np.where(na, 0.0, np.abs(a - b))
     if np.max(d) > tol * max(scale, 1e-300 if rel else 1.0):
         w = np.unravel_index(int(np.argmax(d)), d.shape)
-        return f'entry {tuple(int(i) for i in w)} is {a[w]!r} but must be {b[w]!r}'
+        return f'entry {tuple(int(i) for i in w)} is {float(a[w])!r} but must be {float(b[w])!r}'
     return None
 
 
@@ -599,10 +613,10 @@ def fam_fixed(case):
             d = _same_num(np.atleast_2d(res.variances), want, rel=True) if res.variances is not None else 'variances are None'
             if d:
                 o.add('variances', f'covariance across RDMs (ddof=0) divided by their number: {d}')
-            if res.dof != W.n_rdm - 1:
-                o.add('dof', f'dof is {res.dof}, number of RDMs - 1 = {W.n_rdm - 1}')
         elif res.variances is not None:
             o.add('variances', f'a single RDM has no covariance across RDMs, got {res.variances}')
+    if res.dof != W.n_rdm - 1:
+        o.add('dof', f'dof is {res.dof}, number of RDMs - 1 = {W.n_rdm - 1}')
     if log.draws or log.folds:
         o.add('reproducible', 'eval_fixed made random draws')
     o.ok_rows = W.n_rdm
@@ -666,7 +680,7 @@ def fam_boot(case):
     d = _same_num(res.noise_ceiling, exp_nc)
     if d:
         o.add('noise-ceiling', f'noise_ceiling[bound{", resample" if bnc else ""}]: {d}')
-    elif o.ok_rows >= 2:
+    if np.shape(res.noise_ceiling) == exp_nc.shape and o.ok_rows >= 2:
         X = np.asarray(res.evaluations)[usable]
         if bnc:
             X = np.concatenate([X, np.asarray(res.noise_ceiling)[:, usable].T], axis=1)
@@ -890,7 +904,7 @@ def _finish_cv(W, o, res, exp, exp_nc, usable, n_cv, corr, rr, rp, log):
     d2 = _same_num(res.noise_ceiling, exp_nc)
     if d2:
         o.add('noise-ceiling', f'noise_ceiling[bound, resample, repetition]: {d2}')
-    if not d and not d2 and o.ok_rows >= 2:
+    if np.shape(res.evaluations) == exp.shape and np.shape(res.noise_ceiling) == exp_nc.shape and o.ok_rows >= 2:
         want = _cv_variances(np.asarray(res.evaluations), np.asarray(res.noise_ceiling), usable, n_cv, corr)
         d = 'variances are None' if res.variances is None else _same_num(np.atleast_2d(res.variances), want, rel=True, tol=1e-8)
         if d:
@@ -951,7 +965,7 @@ def fam_dual(case):
     d2 = _same_num(res.noise_ceiling, exp_nc)
     if d2:
         o.add('noise-ceiling', f'noise_ceiling[bound, resample, repetition, (both|rdm|pattern)]: {d2}')
-    if not d and not d2 and o.ok_rows >= 2:
+    if np.shape(res.noise_ceiling) == exp_nc.shape and o.ok_rows >= 2:
         E, NC = np.asarray(res.evaluations), np.asarray(res.noise_ceiling)
         want = np.array([_cv_variances(E[..., s], NC[..., s], usable, n_cv, corr) for s in range(3)])
         dv = 'variances are None' if res.variances is None else _same_num(res.variances, want, rel=True, tol=1e-8)
@@ -1062,9 +1076,9 @@ SHAPES = {   # label -> n_rdm, n_cond, rdm group labels (None: every RDM its own
     'one-rdm': dict(n_rdm=1, n_cond=5, rg=None, pg=None),
 }
 MODELSETS = {'fixed1': ['fixed'], 'fixed2': ['fixed', 'fixed'], 'all4': ['fixed', 'weighted', 'select', 'interpolate'],
-             'flex3': ['weighted', 'select', 'interpolate'], 'sel-int': ['select', 'interpolate'], 'sel2': ['select', 'fixed']}
+             'flex3': ['weighted', 'select', 'interpolate'], 'sel-int': ['select', 'interpolate'], 'sel2': ['select', 'fixed'], 'w-def': ['weighted', 'fixed']}
 APPLICABLE = {'eval_fixed': ('evaluations', 'noise-ceiling', 'variances', 'dof', 'reproducible'),
-              'eval_bootstrap*': ('evaluations', 'noise-ceiling', 'variances', 'dof', 'reproducible'),
+              'eval_bootstrap_all3': ('evaluations', 'noise-ceiling', 'variances', 'dof', 'reproducible'),
               'crossval': ('evaluations', 'noise-ceiling', 'fitter-view', 'reproducible'),
               'bootstrap_crossval': ('evaluations', 'noise-ceiling', 'variances', 'dof', 'fitter-view', 'reproducible'),
               'eval_dual_bootstrap': ('evaluations', 'noise-ceiling', 'variances', 'dof', 'fitter-view', 'reproducible'),
@@ -1078,7 +1092,10 @@ def _case(shape, models, method, seed, **kw):
     return c
 
 
-def _run_family(run, family, domain, cases, bds):
+def _run_family(run, family, domain, cases, bds, histories=1):
+    if histories > 1:       # the same inputs under further seeds of numpy's global generator (other draw sequences)
+        cases = [(dict(c, np_seed=c['np_seed'] + 7919 * h), ic) for c, ic in cases for h in range(histories)]
+        domain += '; %d random histories per input' % histories
     these = {}
     for clause, orc, ob in CLAUSES:
         if clause in APPLICABLE[family]:
@@ -1123,6 +1140,7 @@ def _cv_folds(shape, kind):
 def tier_c(run, thorough):
     bds = []
     seeds = range(3) if thorough else range(1)
+    H = 3 if thorough else 1
     meth = lambda k: METHODS[k % 3]                                                   # noqa: E731
 
     # ---- eval_fixed ----
@@ -1134,7 +1152,7 @@ def tier_c(run, thorough):
                     cases.append((_case(shape, ms, method, seed, routine='eval_fixed', theta_none=(ms == 'fixed2')),
                                   'one-rdm' if shape == 'one-rdm' else shape))
     _run_family(run, 'eval_fixed', 'eval_fixed; 1..5 RDMs x 4..7 conditions, 2 fixed models (theta=None) / fixed+weighted+select+'
-                'interpolate models at supplied parameters; methods cosine, corr, rho-a; %d data seeds' % len(seeds), cases, bds)
+                'interpolate models at supplied parameters; methods cosine, corr, rho-a; %d data seeds' % len(seeds), cases, bds, H)
 
     # ---- the three plain bootstraps ----
     cases = []
@@ -1149,10 +1167,10 @@ def tier_c(run, thorough):
                         for method in (METHODS if thorough else (meth(r + k + q + b),)):
                             cases.append((_case(shape, ms, method, seed, routine=fn, N=N, boot_noise_ceil=bnc,
                                                 theta_none=(ms != 'all4')), shape))
-    _run_family(run, 'eval_bootstrap*', 'eval_bootstrap, eval_bootstrap_pattern, eval_bootstrap_rdm; N=%d; 2..5 RDMs x 4..7 '
+    _run_family(run, 'eval_bootstrap_all3', 'eval_bootstrap, eval_bootstrap_pattern, eval_bootstrap_rdm; N=%d; 2..5 RDMs x 4..7 '
                 'conditions, identity and repeated-value (int / str) descriptors on either factor; 1-2 fixed models (theta=None) / '
                 '4 model classes at supplied parameters; boot_noise_ceil True/False; methods cosine, corr, rho-a; %d data seeds'
-                % (N, len(seeds)), cases, bds)
+                % (N, len(seeds)), cases, bds, H)
 
     # ---- crossval ----
     cases = []
@@ -1177,10 +1195,13 @@ def tier_c(run, thorough):
                                                 fitter=fitter, ceil=ceil), 'fold-lt3-distinct' if kind == 'lt3-distinct' else f'{kind}-folds'))
             cases.append((_case(shape, 'all4', meth(k), seed, routine='crossval', folds=_cv_folds(shape, 'both'),
                                 fitter='callable', ceil='none', calc_noise_ceil=False), 'both-folds'))
+        # fit_optimize (BFGS from random starts: consumes the global generator) as default fitter of a weighted model
+        cases.append((_case('cv-identity', 'w-def', meth(seed), seed, routine='crossval', folds=_cv_folds('cv-identity', 'conditions'),
+                            fitter='none', ceil='none'), 'conditions-folds'))
     _run_family(run, 'crossval', 'crossval on hand-made folds (condition folds, leave-one-RDM-out, both, folds of a resample with '
                 'repeated RDMs / condition labels, folds too small to evaluate) of 4x9 and 6x10 (grouped) data; fitter None '
-                '(fit_select, fit_interpolate, fit_mock) / one callable / list mixing callables and None; ceil_set None / given; '
-                'methods cosine, corr, rho-a; %d data seeds' % len(seeds), cases, bds)
+                '(fit_select, fit_interpolate, fit_optimize, fit_mock) / one callable / list mixing callables and None; ceil_set None / given; '
+                'methods cosine, corr, rho-a; %d data seeds' % len(seeds), cases, bds, H)
 
     # ---- bootstrap_crossval ----
     cases = []
@@ -1203,9 +1224,11 @@ def tier_c(run, thorough):
                             k_rdm=None, N=N, n_cv=2, use_correction=True, fitter='none'), 'default-k'))
         cases.append((_case('cv-identity', 'sel-int', 'corr', seed, routine='bootstrap_crossval', boot_type='pattern', k_pattern=2,
                             k_rdm=1, N=4, n_cv=2, use_correction=True, fitter='none'), 'default-fitters'))
+        cases.append((_case('cv-identity', 'w-def', 'cosine', seed, routine='bootstrap_crossval', boot_type='rdm', k_pattern=1,
+                            k_rdm=2, N=3, n_cv=2, use_correction=True, fitter='none'), 'default-fitters'))
     _run_family(run, 'bootstrap_crossval', 'bootstrap_crossval boot_type both/pattern/rdm; N=%d; k_pattern, k_rdm in {1,2} and defaults; '
                 'n_cv 1/2 with and without correction; 4x9, 6x10 (grouped), 5x7 (grouped) data; fitter None / callable / list; '
-                'methods cosine, corr, rho-a; %d data seeds' % (N, len(seeds)), cases, bds)
+                'methods cosine, corr, rho-a; %d data seeds' % (N, len(seeds)), cases, bds, H)
 
     # ---- eval_dual_bootstrap ----
     cases = []
@@ -1222,7 +1245,7 @@ def tier_c(run, thorough):
                                     n_cv=n_cv, use_correction=corr, fitter=fitter), f'{shape},k={kp}x{kr}'))
     _run_family(run, 'eval_dual_bootstrap', 'eval_dual_bootstrap; N=%d..%d; k_pattern, k_rdm in {1,2}; n_cv 2 with and without correction; '
                 '3x5, 5x7 (grouped), 4x9, 6x10 (grouped) data; fitter None / callable / list; methods cosine, corr, rho-a; %d data seeds'
-                % (N, N + 2, len(seeds)), cases, bds)
+                % (N, N + 2, len(seeds)), cases, bds, H)
 
     # ---- eval_dual_bootstrap_random ----
     cases = []
@@ -1239,7 +1262,10 @@ def tier_c(run, thorough):
                     cases.append((_case(shape, ms, meth(k), seed, routine='eval_dual_bootstrap_random', boot_type=bt, test_pattern=npat,
                                         test_rdm=nr, N=N, n_cv=n_cv, use_correction=corr, fitter=fitter),
                                   'n_cv!=2' if n_cv != 2 else ('n_cv=2' if corr else 'n_cv=2,uncorrected')))
-    _run_family(run, 'eval_dual_bootstrap_random', 'eval_dual_bootstrap_random boot_type both/pattern/rdm; N=%d; test sets of 0..2 '
-                'condition units and 0..2 RDM units; n_cv 2 (corrected) / 3; 3x5, 5x7 (grouped), 4x9, 6x10 (grouped) data; fitter None / '
-                'callable / list; methods cosine, corr, rho-a; %d data seeds' % (N, len(seeds)), cases, bds)
+        # test sets of 2 condition units: nothing to evaluate, also when a unit was drawn twice (see C04_findings.md, F3)
+        cases.append((_case('cv-identity', 'fixed2', 'cosine', seed, routine='eval_dual_bootstrap_random', boot_type='pattern',
+                            test_pattern=2, test_rdm=0, N=N, n_cv=2, use_correction=True, fitter='none'), 'test-sets-lt3-conditions'))
+    _run_family(run, 'eval_dual_bootstrap_random', 'eval_dual_bootstrap_random boot_type both/pattern/rdm; N=%d; test sets of 0, 2, 3, 4 '
+                'condition units and 0..2 RDM units; n_cv 2 (corrected / not) / 3 / 1; 3x5, 5x7 (grouped), 4x9, 6x10 (grouped) data; fitter None / '
+                'callable / list; methods cosine, corr, rho-a; %d data seeds' % (N, len(seeds)), cases, bds, H)
     return bds
